@@ -590,6 +590,12 @@ func addressPoolServiceAllocationsFromCR(p metallbv1beta1.IPAddressPool, namespa
 			}
 		}
 	}
+	if len(serviceAllocations.Namespaces) == 0 && len(p.Spec.AllocateTo.NamespaceSelectors) > 0 && len(p.Spec.AllocateTo.ServiceSelectors) > 0 {
+		// The namespace selectors match no namespace (yet): no service can be admitted, whatever its
+		// labels, whereas an empty namespace set next to service selectors would mean "any namespace".
+		serviceAllocations.ServiceSelectors = []labels.Selector{labels.Nothing()}
+		return serviceAllocations, nil
+	}
 	for i := range p.Spec.AllocateTo.ServiceSelectors {
 		l, err := metav1.LabelSelectorAsSelector(&p.Spec.AllocateTo.ServiceSelectors[i])
 		if err != nil {
